@@ -59,6 +59,22 @@ func run(c *vf.Ctx) {
 	if !c.Quick() {
 		variants = [][2]int{{2, 2}, {3, 1}, {4, 1}}
 	}
+	// transaction combinatorics: two different contracts per version, every ordered pair (thorough: triple) of
+	// actions merged into ONE transaction (two proofs, proof + expiration, renewal + revision of the other contract ...)
+	for _, n := range []string{"mixed", "v2-only", "v1-eras"} {
+		sp := chain.Spec(n)
+		mm := &chain.Model{Name: "merged", Spec: sp, Opt: opt, Menu: chain.MergedMenu, H: 8, D: 2, K: 1, R: 1}
+		if !c.Quick() {
+			mm.Menu = chain.MergedMenu3
+		}
+		if sp.Name == "mixed" {
+			mm.SkipStart = 3
+			mm.H += 3
+		}
+		xm := chain.NewExplorer(c, mm, "C07")
+		xm.Run()
+		xm.Report(n + "/merged/")
+	}
 	for _, l := range lms {
 		for _, v := range variants {
 			if c.Expired() {
